@@ -392,3 +392,7 @@ def run(ctx):
         _c19d.delivery_table(ctx, "R05.1")     # signal mode: the configured signal is the one delivered
     except Skip:
         pass
+
+    # ---- R05.9 "stops it": the stop reaches the whole command - wrapper table owned by C18
+    ctx.rule("R05.9", "restart/signal modes act on the command the user sees: the process-group / session wrappers are applied as configured")
+    ctx.borrow("C18", ["R18.3"], "R05.9", "a grouped command is spawned as a group leader, so stop, kill and wait reach its children too")
